@@ -958,3 +958,475 @@ Proof.
 Qed.
 
 End CoreProofs.
+
+(* ================================================================== matrices with id labels *)
+
+Definition is_square (im : bmat) (n : nat) : Prop := length im = n /\ Forall (fun r => length r = n) im.
+
+(* a perfect matching of a square boolean matrix: a permutation p with im[i][p[i]] = True for all i *)
+Definition has_perfect_matching (im : bmat) : Prop :=
+  exists p, Permutation p (seq 0 (length im)) /\ forall i, i < length im -> inc_pos im i (nth i p 0) = true.
+
+(* equation e involves quantity q *)
+Definition Inc (im : bmat) (eids qids : list nat) (e q : nat) : Prop :=
+  exists i j, nth_error eids i = Some e /\ nth_error qids j = Some q /\ inc_pos im i j = true.
+
+(* each block's equations involve only quantities of that block and of earlier blocks *)
+Definition block_lower_triangular (im : bmat) (eids qids : list nat) (bs : list block) : Prop :=
+  forall pre b post, bs = pre ++ b :: post ->
+  forall e q, In e (fst b) -> Inc im eids qids e q -> In q (bqids (pre ++ [b])).
+
+(* the block is structurally non-singular: its equations and quantities can be paired off along incidences *)
+Definition block_matching (im : bmat) (eids qids : list nat) (b : block) : Prop :=
+  exists ms : list (nat * nat),
+    Permutation (map fst ms) (fst b) /\ Permutation (map snd ms) (snd b) /\
+    Forall (fun m => Inc im eids qids (fst m) (snd m)) ms.
+
+Lemma ncols_square : forall im n, is_square im n -> ncols im = n.
+Proof.
+  intros im n [Hl Hr]. unfold ncols. destruct im as [|r im]; simpl in *; [exact Hl|].
+  inversion Hr; subst. assumption.
+Qed.
+
+Lemma lab_seq : forall ids, map (lab ids) (seq 0 (length ids)) = ids.
+Proof. intros. unfold lab. apply map_nth_seq. Qed.
+
+Lemma beids_relabel : forall eids qids bs,
+  Permutation (beids (map (relabel_block eids qids) bs)) (map (lab eids) (beids bs)).
+Proof.
+  intros. unfold beids. rewrite concat_map, !map_map. apply Permutation_concat_map.
+  intros b _. simpl. apply sortn_perm.
+Qed.
+
+Lemma bqids_relabel : forall eids qids bs,
+  Permutation (bqids (map (relabel_block eids qids) bs)) (map (lab qids) (bqids bs)).
+Proof.
+  intros. unfold bqids. rewrite concat_map, !map_map. apply Permutation_concat_map.
+  intros b _. simpl. apply sortn_perm.
+Qed.
+
+Lemma lab_nth_error : forall ids i, i < length ids -> nth_error ids i = Some (lab ids i).
+Proof. intros. unfold lab. apply nth_error_nth'. assumption. Qed.
+
+Lemma nth_error_lab_inj : forall ids i j e, NoDup ids -> i < length ids ->
+  nth_error ids j = Some e -> lab ids i = e -> j = i.
+Proof.
+  intros ids i j e Hnd Hi Hj He.
+  assert (Hjl : j < length ids) by (apply nth_error_Some; congruence).
+  apply (proj1 (NoDup_nth ids 0) Hnd); [exact Hjl | exact Hi |].
+  apply nth_error_nth with (d := 0) in Hj. unfold lab in He. congruence.
+Qed.
+
+Theorem blaze_valid : forall oracle im eids qids n,
+  perm_oracle oracle ->
+  is_square im n -> length eids = n -> length qids = n -> NoDup eids -> NoDup qids ->
+  has_perfect_matching im ->
+  exists out, blaze oracle im eids qids = Some out /\
+    Permutation (beids (o_blocks out)) eids /\
+    Permutation (bqids (o_blocks out)) qids /\
+    Forall square (o_blocks out) /\
+    block_lower_triangular im eids qids (o_blocks out) /\
+    Forall (block_matching im eids qids) (o_blocks out).
+Proof.
+  intros oracle im eids qids n Hor Hsq Hle Hlq Hnde Hndq [p [Hp Hpm]].
+  assert (Hrows : length im = n) by apply Hsq.
+  assert (Hcols : ncols im = n) by (apply ncols_square; exact Hsq).
+  set (inc := inc_pos im).
+  set (s := fun i => nth i p 0).
+  assert (Hplen : length p = n) by (rewrite (Permutation_length Hp), seq_length; exact Hrows).
+  assert (Hsp : map s (seq 0 n) = p) by (unfold s; rewrite <- Hplen; apply map_nth_seq).
+  assert (HPM : PMf inc s (seq 0 n) (seq 0 n)).
+  { split; [rewrite Hsp, <- Hrows; exact Hp|]. intros e He. apply in_seq in He. apply Hpm. lia. }
+  destruct (blaze_core_spec inc oracle Hor s (seq 0 n) (seq 0 n) (seq_NoDup _ _) (seq_NoDup _ _) HPM)
+    as [bs [pre [calls [Hcore [HbE [HbQ [Hsqs Htri]]]]]]].
+  unfold blaze. fold inc. rewrite Hrows, Hcols, Hcore.
+  eexists. split; [reflexivity|]. simpl.
+  assert (HinE : forall i, In i (beids bs) -> i < n).
+  { intros i Hi. apply (Permutation_in _ HbE) in Hi. apply in_seq in Hi. lia. }
+  assert (HinQ : forall j, In j (bqids bs) -> j < n).
+  { intros j Hj. apply (Permutation_in _ HbQ) in Hj. apply in_seq in Hj. lia. }
+  split; [|split; [|split; [|split]]].
+  - eapply Permutation_trans; [apply beids_relabel|].
+    eapply Permutation_trans; [apply Permutation_map; exact HbE|]. rewrite <- Hle. rewrite lab_seq. apply Permutation_refl.
+  - eapply Permutation_trans; [apply bqids_relabel|].
+    eapply Permutation_trans; [apply Permutation_map; exact HbQ|]. rewrite <- Hlq. rewrite lab_seq. apply Permutation_refl.
+  - apply Forall_forall. intros b Hb. apply in_map_iff in Hb. destruct Hb as [b' [Eb Hb']]. subst b.
+    rewrite Forall_forall in Hsqs. specialize (Hsqs b' Hb'). unfold square in *. simpl.
+    rewrite (Permutation_length (sortn_perm _)), (Permutation_length (sortn_perm _)), !map_length. exact Hsqs.
+  - (* block lower triangular *)
+    intros pre0 b post Hsplit e q He [i2 [j [Hi2 [Hj Hinc]]]].
+    apply map_eq_app in Hsplit. destruct Hsplit as [pre' [rest' [Hbs [Hpre Hrest]]]].
+    apply map_eq_cons in Hrest. destruct Hrest as [b' [post' [Hrest' [Hb Hpost]]]]. subst rest'.
+    subst b. simpl in He. apply (Permutation_in _ (sortn_perm _)) in He.
+    apply in_map_iff in He. destruct He as [i [Ei Hi]].
+    assert (Hib : In i (beids bs)).
+    { rewrite Hbs. rewrite beids_app. apply in_or_app. right. unfold beids. simpl. apply in_or_app. left. exact Hi. }
+    assert (Hin : i < n) by (apply HinE; exact Hib).
+    assert (i2 = i) by (eapply nth_error_lab_inj; [exact Hnde | rewrite Hle; exact Hin | exact Hi2 | exact Ei]).
+    subst i2.
+    assert (Hjn : j < n) by (rewrite <- Hlq; apply nth_error_Some; congruence).
+    assert (Hjpos : In j (bqids (pre' ++ [b']))).
+    { apply (Tri_positive inc bs (seq 0 n) HbQ Htri pre' b' post' Hbs i j Hi); [apply in_seq; lia | exact Hinc]. }
+    assert (Hq : q = lab qids j) by (apply nth_error_nth with (d := 0) in Hj; unfold lab; congruence).
+    rewrite <- Hpre. change [relabel_block eids qids b'] with (map (relabel_block eids qids) [b']).
+    rewrite <- map_app.
+    eapply Permutation_in; [apply Permutation_sym; apply bqids_relabel|]. subst q. apply in_map. exact Hjpos.
+  - (* every diagonal block has a perfect matching *)
+    assert (Hmatched : Forall (fun b => PMf inc s (fst b) (snd b)) bs).
+    { apply blocks_matched; [| | | exact Hsqs | exact Htri].
+      - eapply Permutation_NoDup; [apply Permutation_sym; exact HbQ | apply seq_NoDup].
+      - eapply Permutation_trans; [apply Permutation_map; exact HbE|]. rewrite Hsp.
+        eapply Permutation_trans; [|apply Permutation_sym; exact HbQ]. rewrite <- Hrows. exact Hp.
+      - intros e He. apply Hpm. rewrite Hrows. apply HinE. exact He. }
+    apply Forall_forall. intros b Hb. apply in_map_iff in Hb. destruct Hb as [b' [Eb Hb']]. subst b.
+    rewrite Forall_forall in Hmatched. destruct (Hmatched b' Hb') as [Hperm Hincs].
+    exists (map (fun i => (lab eids i, lab qids (s i))) (fst b')). simpl. rewrite !map_map. simpl.
+    split; [apply Permutation_sym; apply sortn_perm|]. split.
+    + eapply Permutation_trans; [|apply Permutation_sym; apply sortn_perm].
+      rewrite <- (map_map s (lab qids)). apply Permutation_map. exact Hperm.
+    + apply Forall_forall. intros m Hm. apply in_map_iff in Hm. destruct Hm as [i [Em Hi]]. subst m. simpl.
+      assert (Hib : In i (beids bs)) by (unfold beids; apply in_concat; exists (fst b'); split; [apply in_map; exact Hb' | exact Hi]).
+      assert (Hsb : In (s i) (bqids bs)).
+      { unfold bqids. apply in_concat. exists (snd b'). split; [apply in_map; exact Hb'|].
+        eapply Permutation_in; [exact Hperm | apply in_map; exact Hi]. }
+      exists i, (s i). split; [apply lab_nth_error; rewrite Hle; apply HinE; exact Hib|].
+      split; [apply lab_nth_error; rewrite Hlq; apply HinQ; exact Hsb|]. apply Hincs. exact Hi.
+Qed.
+
+(* ================================================================== Sequential models *)
+
+Definition lhs (M : list eqn) (i : nat) : nat := fst (nth i M (0, [])).
+Definition occ (M : list eqn) (i : nat) : list nat := snd (nth i M (0, [])).
+
+(* every equation has its own LHS name ... *)
+Definition distinct_lhs (M : list eqn) : Prop := NoDup (map fst M).
+(* ... which occurs (at zero shift) in the equation *)
+Definition lhs_occurs (M : list eqn) : Prop := forall eq, In eq M -> In (fst eq) (snd eq).
+
+(* `ord` lists equation positions.  Every LHS variable v of the model that the equation at place p
+   uses at zero shift (other than its own LHS variable) has been determined by an equation at an
+   earlier place p'. *)
+Definition causal_order (M : list eqn) (ord : list nat) : Prop :=
+  forall p i, nth_error ord p = Some i ->
+  forall v, In v (occ M i) -> v <> lhs M i -> In v (map fst M) ->
+  exists p' j, p' < p /\ nth_error ord p' = Some j /\ lhs M j = v.
+
+Definition sequential_order (M : list eqn) (ord : list nat) : Prop :=
+  Permutation ord (seq 0 (length M)) /\ causal_order M ord.
+
+Lemma TriS_nth : forall inc s l p p' a b, TriS inc s l -> p < p' ->
+  nth_error l p = Some a -> nth_error l p' = Some b -> inc a (s b) = false.
+Proof.
+  intros inc s l. induction l as [|x l IH]; intros p p' a b H Hlt Ha Hb; [destruct p; discriminate|].
+  destruct H as [H1 H2]. destruct p' as [|p']; [lia|]. simpl in Hb.
+  destruct p as [|p]; simpl in Ha.
+  - injection Ha as <-. apply H1. eapply nth_error_In. exact Hb.
+  - apply (IH p p' a b H2); [lia | exact Ha | exact Hb].
+Qed.
+
+Lemma TriS_of_nth : forall inc s l,
+  (forall p p' a b, p < p' -> nth_error l p = Some a -> nth_error l p' = Some b -> inc a (s b) = false) ->
+  TriS inc s l.
+Proof.
+  intros inc s l. induction l as [|x l IH]; intros H; simpl; [exact I|]. split.
+  - intros e' He'. apply In_nth_error in He'. destruct He' as [k Hk].
+    apply (H 0 (S k) x e'); [lia | reflexivity | exact Hk].
+  - apply IH. intros p p' a b Hlt Ha Hb. apply (H (S p) (S p') a b); [lia | exact Ha | exact Hb].
+Qed.
+
+Lemma uniq_nodup : forall l seen, NoDup l -> (forall x, In x l -> ~ In x seen) -> uniq l seen = l.
+Proof.
+  induction l as [|x l IH]; intros seen Hnd Hdis; simpl; [reflexivity|].
+  inversion Hnd; subst.
+  assert (Hm : mem x seen = false) by (apply mem_false; apply Hdis; left; reflexivity).
+  rewrite Hm. f_equal. apply IH; [assumption|].
+  intros y Hy [Hs|Hs]; [subst; contradiction | apply (Hdis y); [right; exact Hy | exact Hs]].
+Qed.
+
+Lemma lhs_names_distinct : forall M, distinct_lhs M -> lhs_names M = map fst M.
+Proof. intros M H. unfold lhs_names. apply uniq_nodup; [exact H | intros x _ []]. Qed.
+
+Lemma seq_im_length : forall M, length (seq_im M) = length M.
+Proof. intros. unfold seq_im. apply map_length. Qed.
+
+Lemma seq_im_ncols : forall M, distinct_lhs M -> ncols (seq_im M) = length M.
+Proof.
+  intros M H. unfold ncols, seq_im. rewrite (lhs_names_distinct M H).
+  destruct M as [|eq M]; simpl; [reflexivity|]. rewrite !map_length. reflexivity.
+Qed.
+
+Lemma seq_im_inc : forall M i j, distinct_lhs M -> i < length M -> j < length M ->
+  inc_pos (seq_im M) i j = mem (lhs M j) (occ M i).
+Proof.
+  intros M i j H Hi Hj. unfold inc_pos, seq_im. rewrite (lhs_names_distinct M H).
+  set (f := fun eq : eqn => map (fun v => mem v (snd eq)) (map fst M)).
+  rewrite (nth_indep (map f M) [] (f (0, []))) by (rewrite map_length; exact Hi).
+  rewrite map_nth. unfold f.
+  set (g := fun v => mem v (snd (nth i M (0, [])))).
+  rewrite (nth_indep (map g (map fst M)) false (g 0)) by (rewrite !map_length; exact Hj).
+  rewrite map_nth. unfold g.
+  change 0 with (fst (0, @nil nat)) at 1. rewrite map_nth. reflexivity.
+Qed.
+
+Lemma lhs_in : forall M j, j < length M -> In (lhs M j) (map fst M).
+Proof. intros. unfold lhs. apply in_map. apply nth_In. assumption. Qed.
+
+Lemma lhs_inj : forall M i j, distinct_lhs M -> i < length M -> j < length M -> lhs M i = lhs M j -> i = j.
+Proof.
+  intros M i j H Hi Hj E. unfold lhs in E.
+  apply (proj1 (NoDup_nth (map fst M) 0) H); rewrite ?map_length; auto.
+  change 0 with (fst (0, @nil nat)). rewrite !map_nth. exact E.
+Qed.
+
+Lemma seq_im_diag : forall M, distinct_lhs M -> lhs_occurs M -> diag (inc_pos (seq_im M)) (seq 0 (length M)).
+Proof.
+  intros M Hd Ho i Hi. apply in_seq in Hi. rewrite seq_im_inc by (auto; lia).
+  apply mem_In. unfold lhs, occ. apply Ho. apply nth_In. lia.
+Qed.
+
+Lemma nth_error_seq : forall n p i, nth_error (seq 0 n) p = Some i -> i = p /\ p < n.
+Proof.
+  intros n p i H. assert (Hp : p < n).
+  { rewrite <- (seq_length n 0). apply nth_error_Some. congruence. }
+  apply nth_error_nth with (d := 0) in H. rewrite seq_nth in H by exact Hp. simpl in H. auto.
+Qed.
+
+(* the combinatorial statement on the incidence matrix is the statement about variables *)
+Lemma causal_iff : forall M ord, distinct_lhs M -> Permutation ord (seq 0 (length M)) ->
+  (TriS (inc_pos (seq_im M)) (fun x => x) ord <-> causal_order M ord).
+Proof.
+  intros M ord Hd Hperm.
+  assert (Hlt : forall p i, nth_error ord p = Some i -> i < length M).
+  { intros p i H. apply nth_error_In in H. apply (Permutation_in _ Hperm) in H. apply in_seq in H. lia. }
+  assert (Hnd : NoDup ord) by (eapply Permutation_NoDup; [apply Permutation_sym; exact Hperm | apply seq_NoDup]).
+  assert (Hpos : forall p p' i, nth_error ord p = Some i -> nth_error ord p' = Some i -> p = p').
+  { intros p p' i H1 H2. apply (proj1 (NoDup_nth_error ord) Hnd); [apply nth_error_Some; congruence | congruence]. }
+  split.
+  - intros Htri p i Hp v Hv Hne Hin.
+    apply in_map_iff in Hin. destruct Hin as [eq0 [Ev Heq]]. apply (In_nth (A := eqn)) with (d := (0, @nil nat)) in Heq.
+    destruct Heq as [j [Hj Ej]]. assert (Hlj : lhs M j = v) by (unfold lhs, eqn in *; rewrite Ej; exact Ev).
+    assert (Hjord : In j ord) by (eapply Permutation_in; [apply Permutation_sym; exact Hperm | apply in_seq; lia]).
+    apply In_nth_error in Hjord. destruct Hjord as [p' Hp'].
+    assert (Hi := Hlt _ _ Hp).
+    assert (Hinc : inc_pos (seq_im M) i j = true).
+    { rewrite seq_im_inc by auto. apply mem_In. rewrite Hlj. exact Hv. }
+    exists p', j. split; [|split; [exact Hp' | exact Hlj]].
+    destruct (Nat.lt_trichotomy p' p) as [H|[H|H]]; [exact H | |].
+    + subst p'. assert (i = j) by congruence. subst j. congruence.
+    + rewrite (TriS_nth _ _ _ _ _ _ _ Htri H Hp Hp') in Hinc. discriminate.
+  - intros Hc. apply TriS_of_nth. intros p p' a b Hlt' Ha Hb.
+    destruct (inc_pos (seq_im M) a b) eqn:Hinc; [|reflexivity]. exfalso.
+    assert (Hal := Hlt _ _ Ha). assert (Hbl := Hlt _ _ Hb).
+    rewrite seq_im_inc in Hinc by auto. apply mem_In in Hinc.
+    assert (Hab : a <> b) by (intros E; subst b; assert (p = p') by (eapply Hpos; eauto); lia).
+    destruct (Hc p a Ha (lhs M b) Hinc) as [p'' [j [Hlt'' [Hj Hlj]]]].
+    + intros E. apply Hab. symmetry. apply (lhs_inj M); auto.
+    + apply lhs_in. exact Hbl.
+    + assert (j = b) by (apply (lhs_inj M); auto; eapply Hlt; eauto). subst j.
+      assert (p'' = p') by (eapply Hpos; eauto). lia.
+Qed.
+
+Lemma is_sequential_TriS : forall M, distinct_lhs M -> is_sequential_im (seq_im M) = true ->
+  TriS (inc_pos (seq_im M)) (fun x => x) (seq 0 (length M)).
+Proof.
+  intros M Hd H. apply TriS_of_nth. intros p p' a b Hlt Ha Hb.
+  apply nth_error_seq in Ha, Hb. destruct Ha as [-> Hp], Hb as [-> Hp'].
+  unfold is_sequential_im in H. rewrite seq_im_length, (seq_im_ncols M Hd) in H.
+  change is_sequential_order with 1 in H.
+  rewrite forallb_forall in H. specialize (H p). rewrite in_seq in H. specialize (H ltac:(lia)).
+  rewrite forallb_forall in H. specialize (H p'). rewrite in_seq in H. specialize (H ltac:(lia)).
+  apply negb_true_iff in H. exact H.
+Qed.
+
+Lemma permute_id : forall {A} (d : A) l, permute d (seq 0 (length l)) l = l.
+Proof. intros. unfold permute. apply map_nth_seq. Qed.
+
+(* --- the three statements about Sequential.sequentialize, for either value of `raises` *)
+
+Lemma sequentialize_sound : forall raises M ord M',
+  distinct_lhs M -> lhs_occurs M ->
+  sequentialize_gen raises M = (SeqOk ord, M') ->
+  sequential_order M ord /\ M' = permute (0, []) ord M.
+Proof.
+  intros raises M ord M' Hd Ho H. unfold sequentialize_gen in H.
+  destruct (model_is_sequential M) eqn:Hseq.
+  - injection H as <- <-. split; [|symmetry; apply permute_id].
+    split; [apply Permutation_refl|]. apply causal_iff; [exact Hd | apply Permutation_refl|].
+    unfold model_is_sequential in Hseq. destruct M as [|eq M]; [exact I|]. simpl in Hseq.
+    apply is_sequential_TriS; assumption.
+  - unfold sequentialize_strictly in H. rewrite seq_im_length, (seq_im_ncols M Hd) in H.
+    set (E := seq 0 (length M)) in *. set (inc := inc_pos (seq_im M)) in *.
+    set (r := prefetch inc (msize E E) E E) in *.
+    match type of H with (if ?c && raises then _ else _) = _ => destruct (c && raises) end; [discriminate|].
+    destruct (nat_list_eqb (sortn (p_ef r ++ p_el r)) E) eqn:Hs; simpl in H; [|discriminate].
+    injection H as <- <-. split; [|reflexivity].
+    apply nat_list_eqb_eq in Hs. apply sortn_is_range in Hs.
+    split; [exact Hs|]. apply causal_iff; [exact Hd | exact Hs|].
+    apply strict_order_causal; [apply seq_NoDup | apply seq_im_diag; assumption | exact Hs].
+Qed.
+
+Lemma sequentialize_failure_untouched : forall raises M code M',
+  sequentialize_gen raises M = (SeqErr code, M') -> M' = M.
+Proof.
+  intros raises M code M' H. unfold sequentialize_gen in H.
+  destruct (model_is_sequential M); [discriminate|].
+  destruct (sequentialize_strictly (seq_im M)) as [ord fail].
+  destruct (fail && raises); [injection H as _ <-; reflexivity|].
+  destruct (negb (nat_list_eqb (sortn ord) (seq 0 (length M)))); [injection H as _ <-; reflexivity | discriminate].
+Qed.
+
+Lemma sequentialize_complete : forall raises M,
+  distinct_lhs M -> lhs_occurs M ->
+  (exists ord, sequential_order M ord) ->
+  exists ord', fst (sequentialize_gen raises M) = SeqOk ord'.
+Proof.
+  intros raises M Hd Ho [ord [Hperm Hc]]. unfold sequentialize_gen.
+  destruct (model_is_sequential M); [eexists; reflexivity|].
+  unfold sequentialize_strictly. rewrite seq_im_length, (seq_im_ncols M Hd).
+  set (E := seq 0 (length M)). set (inc := inc_pos (seq_im M)).
+  set (r := prefetch inc (msize E E) E E).
+  assert (HE : NoDup E) by apply seq_NoDup.
+  assert (Hdg : diag inc E) by (apply seq_im_diag; assumption).
+  assert (Hei : p_ei r = []).
+  { apply prefetch_complete; [exact HE | exact Hdg | apply le_n |].
+    exists ord. split; [exact Hperm | apply causal_iff; assumption]. }
+  assert (Hqi : p_qi r = []) by (unfold r; rewrite prefetch_diag; [exact Hei | exact HE | exact Hdg]).
+  destruct (prefetch_spec inc (fun x => x) (msize E E) E E HE HE (PMf_id inc E Hdg))
+    as [rE _ rqf rql _ _ _ _ _ _ _]. fold r in rE, rqf, rql.
+  rewrite map_id in rqf, rql.
+  rewrite Hei, Hqi, rqf, rql. simpl.
+  assert (Hrefl : forall l, nat_list_eqb l l = true) by (intros l; apply nat_list_eqb_eq; reflexivity).
+  rewrite !Hrefl. simpl.
+  rewrite Hei in rE. simpl in rE.
+  assert (Hs : sortn (p_ef r ++ p_el r) = E) by (apply sortn_is_range; apply Permutation_sym; exact rE).
+  rewrite Hs, Hrefl. simpl. eexists. reflexivity.
+Qed.
+
+(* ================================================================== instances and non-vacuity *)
+
+(* the statements for the model as generated from the current source *)
+Lemma sequentialize_sound_now : forall M ord M',
+  distinct_lhs M -> lhs_occurs M ->
+  sequentialize M = (SeqOk ord, M') -> sequential_order M ord /\ M' = permute (0, []) ord M.
+Proof. intros M ord M'. apply sequentialize_sound. Qed.
+
+Lemma sequentialize_complete_now : forall M,
+  distinct_lhs M -> lhs_occurs M -> (exists ord, sequential_order M ord) ->
+  exists ord', fst (sequentialize M) = SeqOk ord'.
+Proof. intros M. apply sequentialize_complete. Qed.
+
+Lemma sequentialize_failure_untouched_now : forall M code M',
+  sequentialize M = (SeqErr code, M') -> M' = M.
+Proof. intros M code M'. apply sequentialize_failure_untouched. Qed.
+
+(* sequentialize raises exactly when no sequential order exists *)
+Lemma sequentialize_raises_iff : forall M, distinct_lhs M -> lhs_occurs M ->
+  ((exists code, fst (sequentialize M) = SeqErr code) <-> ~ exists ord, sequential_order M ord).
+Proof.
+  intros M Hd Ho. split.
+  - intros [code Hc] Hex. destruct (sequentialize_complete_now M Hd Ho Hex) as [ord' H]. congruence.
+  - intros Hn. destruct (sequentialize M) as [[ord|code] M'] eqn:Hs.
+    + exfalso. apply Hn. exists ord. eapply sequentialize_sound_now; eassumption.
+    + exists code. reflexivity.
+Qed.
+
+Definition id_oracle : oracle_t := fun _ v => seq 0 (length v).
+Lemma id_oracle_perm : perm_oracle id_oracle.
+Proof. intros k v. apply Permutation_refl. Qed.
+
+(* a reversing ("non-sorting") oracle also satisfies the contract *)
+Definition rev_oracle : oracle_t := fun _ v => rev (seq 0 (length v)).
+Lemma rev_oracle_perm : perm_oracle rev_oracle.
+Proof. intros k v. apply Permutation_sym. apply Permutation_rev. Qed.
+
+(* a 6x6 matrix with a perfect matching off the diagonal; the implementation returns one 1x1 first
+   block, two 2x2 inner blocks and one 1x1 last block for it *)
+Definition ex_im : bmat :=
+  [ [true;  true;  false; false; false; false];
+    [false; true;  true;  true;  false; false];
+    [false; false; false; false; true;  false];
+    [true;  true;  false; false; false; false];
+    [false; true;  false; false; false; true ];
+    [false; false; true;  true;  false; false] ].
+Definition ex_eids := [10; 11; 12; 13; 14; 15].
+Definition ex_qids := [26; 25; 24; 23; 22; 21].
+
+Lemma ex_hypotheses :
+  is_square ex_im 6 /\ length ex_eids = 6 /\ length ex_qids = 6 /\ NoDup ex_eids /\ NoDup ex_qids /\
+  has_perfect_matching ex_im.
+Proof.
+  split; [split; [reflexivity | repeat constructor]|].
+  split; [reflexivity|]. split; [reflexivity|].
+  split; [repeat constructor; simpl; intuition congruence|].
+  split; [repeat constructor; simpl; intuition congruence|].
+  exists [0; 2; 4; 1; 5; 3]. split.
+  - apply NoDup_Permutation; [repeat constructor; simpl; intuition congruence | apply seq_NoDup |].
+    intros x. simpl. intuition.
+  - intros i Hi. simpl in Hi. do 6 (destruct i as [|i]; [reflexivity|]). lia.
+Qed.
+
+(* a sorting oracle: stable argsort (positions ordered by key, ties by position) *)
+Fixpoint ins_idx (v : list nat) (i : nat) (l : list nat) : list nat :=
+  match l with
+  | [] => [i]
+  | j :: r => if nth i v 0 <=? nth j v 0 then i :: l else j :: ins_idx v i r
+  end.
+Definition stable_argsort (v : list nat) : list nat := fold_right (ins_idx v) [] (seq 0 (length v)).
+Definition sorting_oracle : oracle_t := fun _ v => stable_argsort v.
+
+Lemma ins_idx_perm : forall v i l, Permutation (ins_idx v i l) (i :: l).
+Proof.
+  intros v i l. induction l as [|j l IH]; simpl; [apply Permutation_refl|].
+  destruct (nth i v 0 <=? nth j v 0); [apply Permutation_refl|].
+  eapply Permutation_trans; [apply perm_skip; exact IH | apply perm_swap].
+Qed.
+
+Lemma sorting_oracle_perm : perm_oracle sorting_oracle.
+Proof.
+  intros k v. unfold sorting_oracle, stable_argsort. induction (seq 0 (length v)) as [|i l IH]; simpl; [constructor|].
+  eapply Permutation_trans; [apply ins_idx_perm | constructor; exact IH].
+Qed.
+
+(* with a sorting oracle the model finds the 2x2 blocks; with the identity ("non-sorting") oracle the
+   decomposition is coarser but, as the theorem says, still valid *)
+Lemma ex_blaze :
+  option_map o_blocks (blaze sorting_oracle ex_im ex_eids ex_qids)
+  = Some [([12], [22]); ([10; 13], [25; 26]); ([11; 15], [23; 24]); ([14], [21])] /\
+  option_map o_blocks (blaze id_oracle ex_im ex_eids ex_qids)
+  = Some [([12], [22]); ([10; 11; 13; 15], [23; 24; 25; 26]); ([14], [21])].
+Proof. split; vm_compute; reflexivity. Qed.
+
+(* Sequential examples: a = b + c[-1]; b = 0.5*d + 1; c = a + b; d = 0.8*d[-1]  (names 0..3) *)
+Definition ex_model : list eqn := [(0, [0; 1]); (1, [1; 3]); (2, [2; 0; 1]); (3, [3])].
+(* a = b; b = c; c = a *)
+Definition ex_cycle : list eqn := [(0, [0; 1]); (1, [1; 2]); (2, [2; 0])].
+
+Lemma ex_model_hypotheses : distinct_lhs ex_model /\ lhs_occurs ex_model /\ model_is_sequential ex_model = false.
+Proof.
+  split; [repeat constructor; simpl; intuition congruence|]. split; [|reflexivity].
+  intros eq0 H. simpl in H. intuition; subst; simpl; auto.
+Qed.
+
+Lemma ex_model_sequentialize :
+  sequentialize ex_model = (SeqOk [3; 1; 0; 2], [(3, [3]); (1, [1; 3]); (0, [0; 1]); (2, [2; 0; 1])]).
+Proof. vm_compute. reflexivity. Qed.
+
+Lemma ex_cycle_fails :
+  distinct_lhs ex_cycle /\ lhs_occurs ex_cycle /\ sequentialize ex_cycle = (SeqErr ERR_VALUE, ex_cycle).
+Proof.
+  split; [repeat constructor; simpl; intuition congruence|]. split; [|vm_compute; reflexivity].
+  intros eq0 H. simpl in H. intuition; subst; simpl; auto.
+Qed.
+
+Lemma sequentialize_either_way : forall (raises : bool) (M : list eqn),
+  distinct_lhs M -> lhs_occurs M ->
+  (forall ord M', sequentialize_gen raises M = (SeqOk ord, M') ->
+                  sequential_order M ord /\ M' = permute (0, []) ord M) /\
+  ((exists ord, sequential_order M ord) -> exists ord', fst (sequentialize_gen raises M) = SeqOk ord') /\
+  (forall code M', sequentialize_gen raises M = (SeqErr code, M') -> M' = M).
+Proof.
+  intros raises M Hd Ho. split; [|split].
+  - intros ord M'. apply sequentialize_sound; assumption.
+  - apply sequentialize_complete; assumption.
+  - intros code M'. apply sequentialize_failure_untouched.
+Qed.
